@@ -8,6 +8,7 @@ streams `W`, every tick resolution `q`, both tolerance modes and EVERY history o
 event / voice, mute, update, unschedule, clear, and exhaustion.
 -/
 import IsobarV.Sched.BalanceOps
+import IsobarV.Sched.Solo
 
 namespace IsobarV.C02
 open IsobarV.Sched
@@ -206,6 +207,105 @@ theorem first_due_tick (q time c : Nat) (hq : 0 < q) :
     · exact absurd s1 (h2 _ h)
   · rintro rfl
     exact ⟨s1, fun c' hc' => Nat.not_le.mpr (s2 c' hc')⟩
+
+/-! ### Release on the first due tick (invariant of the per-track tick function)
+
+`C07.non_interference` shows that, for tracks that do not call the timeline API, a track evolves from
+tick to tick by the per-track function `t ↦ soloTick W q (applyStarts q due (t.processOffs q))`.
+`Timely` — no pending note-off is overdue by a whole tick — is an invariant of that function (for
+well-formed voices), and under it every note-off that the note-off phase releases is released on
+exactly the first tick at or after its time, never in the tick that queued it. -/
+
+/-- No pending note-off of the track is overdue by a whole tick. -/
+def Timely (q : Nat) (t : Track) : Prop := ∀ o ∈ t.offs, t.cur * q < o.time + q
+
+/-- All note events of the world have well-formed voices (positive gate ⇒ positive length). -/
+def WorldWF (W : World) : Prop := ∀ sid pos d a vs, W sid pos = some (.ev d a (.note vs)) → ∀ v ∈ vs, VoiceWF v
+
+theorem applyStarts_same (q : Nat) (as : List PAct) (t : Track) :
+    (applyStarts q as t).offs = t.offs ∧ (applyStarts q as t).cur = t.cur := by
+  induction as generalizing t with
+  | nil => exact ⟨rfl, rfl⟩
+  | cons a as ih =>
+    simp only [applyStarts, List.foldl_cons]
+    have h := ih (startIf q a t)
+    simp only [applyStarts] at h
+    have hs : (startIf q a t).offs = t.offs ∧ (startIf q a t).cur = t.cur := by
+      unfold startIf; split <;> simp [Track.start]
+    exact ⟨h.1.trans hs.1, h.2.trans hs.2⟩
+
+/-- After the note-off phase nothing that stays pending is due. -/
+theorem strict_after_processOffs (q : Nat) (t : Track) :
+    ∀ o ∈ (t.processOffs q).offs, (t.processOffs q).cur * q < o.time := by
+  intro o ho
+  exact ((release_rule q t o).2.mp ho).2
+
+theorem soloTick_timely (W : World) (hW : WorldWF W) (q : Nat) (hq : 0 < q) (t : Track)
+    (hstrict : ∀ o ∈ t.offs, t.cur * q < o.time) : Timely q (soloTick W q t).t := by
+  have base : Timely q t := fun o ho => by have := hstrict o ho; omega
+  have hend : ∀ (u : Track) (s : Bool), (∀ o ∈ u.offs, u.cur * q < o.time) → Timely q (endSolo u s) := by
+    intro u s hu o ho
+    have := hu o (by simpa [endSolo] using ho)
+    simp only [endSolo, Nat.add_mul]; omega
+  unfold soloTick
+  split
+  · exact base
+  · split
+    · have hs := pullLoop_same W q (t.fuel q) t .stop
+      have hev := pullLoop_ev_from_W W q (t.fuel q) t .stop
+      generalize Track.pullLoop W q (t.fuel q) t .stop = p at hs hev
+      obtain ⟨_, s2, _, _, _, s6⟩ := hs
+      have hp : ∀ o ∈ p.t.offs, p.t.cur * q < o.time := by rw [s2, s6]; exact hstrict
+      unfold soloAfterPull
+      split
+      · intro o ho; have := hp o ho; show p.t.cur * q < o.time + q; omega
+      · intro o ho; have := hp o ho; show p.t.cur * q < o.time + q; omega
+      · exact hend p.t true hp
+      · rename_i d a k hr
+        have hperf : ∀ o ∈ (performSolo q p.t a k).t.offs, (performSolo q p.t a k).t.cur * q < o.time := by
+          unfold performSolo
+          split
+          · exact hp
+          · cases k with
+            | note vs =>
+              have hwf : ∀ v ∈ vs, VoiceWF v := by
+                rcases hev d a (.note vs) hr with h | ⟨sid, pos, h⟩
+                · cases h
+                · exact hW sid pos d a vs h
+              intro o ho
+              simp only [List.mem_append] at ho
+              rcases ho with ho | ho
+              · exact hp o ho
+              · exact not_in_onset_tick p.t.cur q vs hwf o ho
+            | control cc v ch bad => simp only []; split <;> exact hp
+            | program pp ch bad => simp only []; split <;> exact hp
+            | action ops out => exact hp
+        split
+        · intro o ho; have := hperf o ho; show (performSolo q p.t a k).t.cur * q < o.time + q; omega
+        · exact hend _ false hperf
+    · exact hend t false hstrict
+
+/-- **`Timely` is an invariant of the per-track tick function.** -/
+theorem timely_invariant (W : World) (hW : WorldWF W) (q : Nat) (hq : 0 < q) (due : List PAct) (t : Track) :
+    Timely q (soloTick W q (applyStarts q due (t.processOffs q))).t := by
+  apply soloTick_timely W hW q hq
+  obtain ⟨h1, h2⟩ := applyStarts_same q due (t.processOffs q)
+  rw [h1, h2]
+  exact strict_after_processOffs q t
+
+/-- **Released exactly on time.**  For a timely track, every note-off sent by the note-off phase at
+    local tick `cur` has `cur` as the first tick at or after its time: `cur = ⌈time / q⌉`.  Since the
+    time is `onset tick · q + duration × gate` (`voices_paired`) with a positive length, that is the
+    first tick at or after onset + duration × gate, and never the onset tick itself. -/
+theorem released_on_first_due_tick (q : Nat) (hq : 0 < q) (t : Track) (ht : Timely q t) (o : NoteOff)
+    (ho : o ∈ dueOffs q t) : t.cur = cdiv o.time q := by
+  obtain ⟨hmem, hdue⟩ := (release_rule q t o).1.mp ho
+  have hlate := ht o hmem
+  apply (first_due_tick q o.time t.cur hq).mp
+  refine ⟨hdue, fun c' hc' hle => ?_⟩
+  have : (c' + 1) * q ≤ t.cur * q := Nat.mul_le_mul_right q hc'
+  rw [Nat.add_mul] at this
+  omega
 
 /-! Non-vacuity: a concrete history with a chord, an update, a mute and an unschedule while notes
     sound; the model really emits note-ons and the balance is non-trivial. -/
